@@ -142,42 +142,57 @@ class Tree(object):
 _TREE = {'tree': None}
 
 
-def _build(root):
+def _describe(root):
+    """In-memory description of the tree at `root` (no file system access)."""
     tree = Tree(root)
     dirs = set()
     for fid, (rel, spec, mtime, plain) in enumerate(_SPEC):
         data = spec if isinstance(spec, bytes) else content(fid, spec)
         p = _os.path.join(root, rel)
         d = _os.path.dirname(p)
-        _os.makedirs(d, exist_ok=True)
         while d != root:
             dirs.add(d)
             d = _os.path.dirname(d)
-        with open(p, 'wb') as f:
-            f.write(data)
-        ns = int(round(mtime * 1000)) * 1000000
-        _os.utime(p, ns=(ns, ns))
         info = FileInfo(rel, p, data, mtime, plain)
         tree.files[p] = info
         tree.by_rel[rel] = info
     for rel in _EMPTY_DIRS:
-        p = _os.path.join(root, rel)
-        _os.makedirs(p, exist_ok=True)
-        dirs.add(p)
+        dirs.add(_os.path.join(root, rel))
     tree.dirs = sorted(dirs)
     return tree
 
 
+def _write(root):
+    """Materialise the tree below the (new) directory `root`."""
+    tree = _describe(root)
+    for d in tree.dirs:
+        _os.makedirs(d, exist_ok=True)
+    for p in sorted(tree.files):
+        info = tree.files[p]
+        with open(p, 'wb') as f:
+            f.write(info.data)
+        ns = int(round(info.mtime * 1000)) * 1000000
+        _os.utime(p, ns=(ns, ns))
+
+
 def get_tree():
-    """Build (once per process family) and return the tree."""
+    """Build (once per check: before the worker pool is forked) and return
+    the tree."""
     if _TREE['tree'] is not None:
         return _TREE['tree']
     base = mirror.directory()
     if base:
         root = _os.path.join(_os.path.realpath(base), '_disksim')
-        if _os.path.isdir(root):
-            shutil.rmtree(root)
-        _os.makedirs(root)
+        if not _os.path.isdir(root):
+            # written next to its final place, then renamed: a process that
+            # finds `root` finds it complete
+            tmp = '%s.%d' % (root, _os.getpid())
+            _os.makedirs(tmp)
+            _write(tmp)
+            try:
+                _os.rename(tmp, root)
+            except OSError:
+                shutil.rmtree(tmp, ignore_errors=True)
     else:
         root = _os.path.realpath(tempfile.mkdtemp(prefix='falcon-disksim-'))
         owner = _os.getpid()
@@ -187,7 +202,8 @@ def get_tree():
                 shutil.rmtree(root, ignore_errors=True)
 
         atexit.register(_cleanup)
-    _TREE['tree'] = _build(root)
+        _write(root)
+    _TREE['tree'] = _describe(root)
     return _TREE['tree']
 
 
